@@ -387,6 +387,12 @@ func init() {
 			k := c.Free("return-after", n)
 			desc = fmt.Sprintf("return-after@%d/%d", k, n)
 			mut = func(r *world.Reply) { r.ReturnAfter = k }
+			if c.Free("exit", 2) == 1 {
+				// ... or does not return at all: it panics with http.ErrAbortHandler (what
+				// httputil.ReverseProxy does when its upstream breaks off mid-body)
+				desc = fmt.Sprintf("panic-after@%d/%d", k, n)
+				mut = func(r *world.Reply) { r.ReturnAfter, r.Panic = k, http.ErrAbortHandler }
+			}
 		case 1: // every flag byte value
 			if !b.respIsEnv {
 				c.Skip()
@@ -493,6 +499,10 @@ func init() {
 		v := p.run(runOpts{Responder: p.strictResponder(nil), Reply: func(r *world.Reply) {
 			mut(r)
 			id = p.idealResponse(r)
+			if r.Panic != nil {
+				// a handler that panics has not produced a complete response, whatever it wrote
+				id.wellFormed, id.why = false, "the handler panicked (http.ErrAbortHandler) after writing a part of its response"
+			}
 		}})
 		if v.Err != nil {
 			c.Fail("harness.setup", "%v", v.Err)
@@ -508,7 +518,7 @@ func init() {
 		ID:    "C09",
 		Level: "fault_enumeration",
 		Rule: "For one pairing per adapter path: the request body cut at every byte offset (transport error, and clean EOF where no length is declared), every value 0..255 of every envelope flag byte, " +
-			"length fields -1/+1/x2/2^32-1/+5, every single-bit flip of every payload byte, mis-stated Content-Length; and on the response side: handler return after every prefix, every flag value, " +
+			"length fields -1/+1/x2/2^32-1/+5, every single-bit flip of every payload byte, mis-stated Content-Length, every proper prefix of a further frame after the complete request; and on the response side: handler return - and handler panic (http.ErrAbortHandler) - after every prefix, every flag value, " +
 			"length mutations, every single-bit flip, mis-stated Content-Length, missing end, duplicated end / data after end. A case is non-trivial when the fault lies strictly inside a frame or payload.",
 		Assume: []string{"reference backend rejects malformed requests as a real server of its protocol would", "strict ResponseWriter model mirrors net/http"},
 		Scenarios: []Scenario{
@@ -581,10 +591,11 @@ func (p *Pairing) backendComplete(be *world.Backend) []string {
 
 // c09Judge applies the oracle of C09 to one faulted execution.
 func c09Judge(c *xplor.Ctx, b *c09base, p *Pairing, v runResult, id ideal, desc string, reqSide, boundary bool) {
-	if v.Ex.Panic != nil {
+	if v.Ex.Panic != nil && !strings.Contains(v.Ex.Panic.Value, "abort Handler") {
 		c.Fail("C09.no-terminated-response", "%s %s: ServeHTTP panicked: %s\n%s", p.Name, desc, v.Ex.Panic.Value, stackTop(v.Ex.Panic.Stack))
 		return
 	}
+	// (the handler's own http.ErrAbortHandler passes through ServeHTTP; what the client holds by then is judged)
 	cm, pr, decodable := p.clientMsgs2(v.Ex)
 	clientOK := pr.OK() && decodable
 	be := v.Backend
@@ -622,6 +633,12 @@ func c09Judge(c *xplor.Ctx, b *c09base, p *Pairing, v runResult, id ideal, desc 
 		return
 	}
 	c.Note("nonok")
+	if v.Ex.Panic != nil {
+		// the panic leaves ServeHTTP: the server aborts the connection, the client gets a transport
+		// error whatever had been written
+		c.Outcome("aborted-by-handler-panic")
+		return
+	}
 	// Well-formedness of the error response is demanded where the transcoder is in control of
 	// the whole response: for request-side faults, and for clients whose response it buffers.
 	// When a backend breaks off inside a frame that is already being streamed to an enveloped
